@@ -9,10 +9,10 @@ STRENGTHENED = {
     "C03-1": "first missed: E1 'uaf' part added (ReadAt hammered against eviction with a canary pattern in recycled buffers)",
     "C05-3": "first missed: typed-fields grammar in C04 and flags-shorter-than-peers PEX in C05's hostile generator",
     "C08-1": "C08 missed it: injected write faults now include net.Error timeouts (partial and nothing written)",
+    "C05-2": "C05 missed it (C09 caught it): composite 'choke, then data for the blocks behind the ones on the wire'",
     "C09-2": "C09 missed it: back-pressure action (torrent loop held, mailbox filled, have/dont-have toggled while it drains)",
     "C09-3": "first missed: congestion and push-all actions (data for blocks still queued at the peer)",
     "C10-1": "first missed: 'hammer' family (real-time Request/evict/complete races outside the bubble scheduler's cuts)",
-    "C11-1": "first missed: scheduler commands injected into the peer actor (PeerRequest for allowed-fast pieces while choked)",
     "C13-3": "C13 missed it: near-hash magnet inputs (hex/base-32 encodings of 15..25-byte strings, padded and truncated)",
     "C14-1": "C14 missed it: 'large' family (torrents beyond 4 GiB served lazily from the PRF; requests must stay inside the demanded piece)",
     "C15-3": "C15 missed it: a well-formed failure reply's 'retry in' is now an announced interval for the contact rule",
@@ -20,6 +20,32 @@ STRENGTHENED = {
     "C17-3": "C17 missed it: position 'stop-queued-mailbox-full' and ops PeerError / PeerHangup (a peer leaves on its own while the mailbox is full and the loop stops)",
     "C18-2": "C18 missed it: torrent deleted and re-added through a proxy while an incoming handshake for it is stalled",
     "C20-1": "C20 missed it: padding files placed inside ordinary directories, before or after the file they pad",
+    # second round (k = 4..6)
+    "C01-4": "C01 missed it: deletion is absorbing in the visibility model (no Finalise succeeds after Del took effect) + template 'another piece filled, verified and read while Del waits for a hasher' + PRNG schedules after the DFS budget",
+    "C02-5": "C02 missed it: 'racing read' (a Read lingers at piece.readat.prelock while everything is evicted and corrupting seeds refill)",
+    "C03-4": "C03 missed it: fault point alloc.mmap (new hook) + accounting equation and error return under 1-3 failed mappings",
+    "C03-6": "C03 missed it: least-recently-accessed order with access times made through Torrent.Request on complete pieces (re-reads)",
+    "C05-4": "C05 missed it: composite 'size vote + complete garbage set + stray blocks with and without total_size'",
+    "C05-5": "C05 missed it: composite 'allowed-fast around the piece count before the metadata, have-all, then the true metadata' (magnet + idle prefetch)",
+    "C05-6": "C05 missed it: peer closes while the torrent loop is held and the mailbox full, timers run, loop resumes; LoopAlive probe",
+    "C06-5": "C06 missed it: extended messages written under a foreign sub-id inside streams (storrent's reader must return ExtendedUnknown and skip exactly that frame)",
+    "C08-4": "C08 missed it (1 handshake in 256): Diffie-Hellman secrets with a leading zero byte, steered (storrent client) or retried (storrent server); waits on the in-memory pipe are bounded",
+    "C08-5": "C08 missed it: a second writer calls Write while the first is inside the failing underlying write",
+    "C10-5": "C10 missed it: variant 'request crosses completion' (request queued behind a held loop, piece verified before the loop handles it)",
+    "C10-6": "C10 missed it: idle histories get a peer that has everything; an idle entry for a piece complete for two cuts is a violation",
+    "C11-6": "C11 missed it: PEX pool peers that advertise another port than the one they were dialled at; every announced address must be one a peer connected from",
+    "C12-5": "C12 missed it: size voters that do not speak ut_metadata (key absent or 0)",
+    "C12-6": "caught once by luck: directed 'vote flip' family with the exact bound (nothing forged was offered for the true size, so one honest pass suffices)",
+    "C13-4": "C13 missed it: the refused info dictionary offered three times over the magnet path (tor.New + MetadataComplete)",
+    "C13-5": "C13 missed it: PieceLength of first / last / beyond-last piece; lengths beyond 2^32 with piece lengths 48K, 80K, 3M",
+    "C16-4": "C16 missed it: leeches advertise reqq values from 1 to 2^31-1",
+    "C16-5": "C16 missed it: a request being served lingers at piece.readat.prelock while the piece is evicted and refilled with corrupt data",
+    "C17-5": "C17 missed it: real-time part 'webseed-stop' (stalled web seed, Kill, the server must see the fetch abandoned)",
+    "C17-6": "C17 missed it: position 'live-peer-leaves-mailbox-full' with interested peers and the 20 s choking round due",
+    "C18-4": "C18 missed it: in-process observers (fake tracker, DHT hook) are judged against the new settings only (SetConf is called at a quiescent cut, no virtual time passes)",
+    "C19-5": "C19 missed it: paths storrent declares nothing for (/debug/pprof/..., /debug/vars, /metrics, ...) probed under foreign Hosts",
+    "C19-6": "C19 missed it: hostile names that end like file names (.mp3, .ts, .mkv, .m3u8 after the line break)",
+    "C20-4": "C20 missed it: duplicate names in a FUSE directory listing",
 }
 rows = []
 for d in sorted(glob.glob(os.path.join(ROOT, "seeded", "C[0-9][0-9]-*"))):
